@@ -304,9 +304,9 @@ func runC12(o *Options) *Result {
 		return res
 	}
 	if _, err := prepareGenNow(o); err != nil {
-		parserModelBroken(res)
 		pmList = nil
 	}
+	parserModelBroken(res)
 	var pmSources [][]byte
 	for _, c := range pmList {
 		pmSources = append(pmSources, c.Src)
